@@ -273,6 +273,79 @@ func ruleEcho(w *World, r *Report, fns ...*ssa.Function) {
 			add(fname, w.Pos(f.Pos()), Undecided, "no constructor or setter call of "+T.Obj().Name()+" found on behalf of this function")
 			continue
 		}
+		// the constructor / setter itself keeps the value: every scalar parameter is stored
+		// into a field as it is (a setter that clamps or normalises changes what is reported)
+		checked := map[*ssa.Function]bool{}
+		var keeps func(g *ssa.Function, depth int)
+		keeps = func(g *ssa.Function, depth int) {
+			if g == nil || g.Blocks == nil || checked[g] || depth > 2 {
+				return
+			}
+			checked[g] = true
+			gname := w.FuncName(g)
+			for pi, prm := range g.Params {
+				if !isScalar(prm.Type()) || prm.Referrers() == nil {
+					continue
+				}
+				// where does the parameter go: a field store, or a callee that stores it
+				stored, changed := false, ""
+				instrs(g, func(in ssa.Instruction) {
+					switch x := in.(type) {
+					case *ssa.Store:
+						if _, _, isField := fieldOf(x.Addr); !isField {
+							return
+						}
+						v := resolve(x.Val)
+						if v == ssa.Value(prm) {
+							stored = true
+							return
+						}
+						if ph, ok := v.(*ssa.Phi); ok {
+							hasP, other := false, ""
+							for _, e := range ph.Edges {
+								if resolve(e) == ssa.Value(prm) {
+									hasP = true
+								} else if other == "" {
+									other = describeValue(e)
+								}
+							}
+							if hasP && other != "" {
+								changed = "stores " + prm.Name() + " on some paths and " + other + " on others (" + w.Pos(x.Pos()) + ")"
+							}
+						}
+						if bo, ok := v.(*ssa.BinOp); ok && (resolve(bo.X) == ssa.Value(prm) || resolve(bo.Y) == ssa.Value(prm)) {
+							changed = "stores arithmetic on " + prm.Name() + " (" + w.Pos(x.Pos()) + ")"
+						}
+						if mc, ok := v.(*ssa.Call); ok && (builtinName(mc) == "min" || builtinName(mc) == "max") {
+							for _, a := range mc.Call.Args {
+								if resolve(a) == ssa.Value(prm) {
+									changed = "stores " + builtinName(mc) + "(" + prm.Name() + ", ...) (" + w.Pos(x.Pos()) + ")"
+								}
+							}
+						}
+					case *ssa.Call:
+						cal := x.Call.StaticCallee()
+						if cal == nil || !w.InModule(cal) {
+							return
+						}
+						for ai, a := range x.Call.Args {
+							if resolve(a) == ssa.Value(prm) && ai < len(cal.Params) {
+								keeps(cal, depth+1)
+							}
+						}
+					}
+				})
+				_ = stored
+				if changed != "" {
+					add(fmt.Sprintf("%s / %s keeps %s", fname, gname, prm.Name()), w.Pos(g.Pos()), Violated, "the group does not report the request's value unchanged: "+gname+" "+changed)
+				} else if stored {
+					add(fmt.Sprintf("%s / %s keeps %s", fname, gname, prm.Name()), w.Pos(g.Pos()), Discharged, "parameter #"+fmt.Sprint(pi)+" is stored into a field unchanged")
+				}
+			}
+		}
+		for _, s := range sites {
+			keeps(s.callee, 0)
+		}
 		cnt := map[string]int{}
 		for _, s := range sites {
 			params := s.callee.Signature.Params()
